@@ -85,6 +85,8 @@ def run(ctx, out):
     # fix the 'empty' ops: header + zero length byte
     ops = [o if m[3] != "empty" else f"parse {m[0]} {m[1]:02x}{m[2]:02x}00" for o, m in zip(ops, meta)]
     impl, model = ctx.pair(ops)
+    from ..flow import history_check
+    history_check(ctx, out, ops[::5], impl[::5], "reply parser")
     out.compare("parse", ops, impl, model)
     out.evaluations = len(ops)
     # oracle: compare with the variant type's own decoder (implementation alone)
